@@ -443,6 +443,58 @@ func deviations() []deviation {
 			}
 		}
 	})})
+	// --- unsigned parts carrying values of the wrong kind, and signed-looking members placed among them ---
+	uSet := func(label any, v any) func(*coseSpec) {
+		return func(s *coseSpec) {
+			for i := range s.Unprotected {
+				if s.Unprotected[i].Label == label {
+					s.Unprotected[i].Value = v
+					return
+				}
+			}
+			s.Unprotected = append(s.Unprotected, cEntry{label, v})
+		}
+	}
+	jHdr := func(k, raw string) func(*jwsSpec) {
+		return func(s *jwsSpec) { s.ExtraHeader = append(s.ExtraHeader, jMember{k, raw}) }
+	}
+	const kAgent, kTS = "io.cncf.notary.signingAgent", "io.cncf.notary.timestampSignature"
+	for _, kv := range []struct {
+		n string
+		c any
+		j string
+	}{{"int", int64(7), "7"}, {"bstr", []byte("ag"), ""}, {"array", []any{"a"}, `["a"]`}, {"bool", true, "true"}, {"null", nil, "null"}, {"map", map[any]any{"a": 1}, `{"a":1}`}} {
+		kv := kv
+		d := deviation{name: "unsigned-agent-" + kv.n, c: C(uSet(kAgent, kv.c))}
+		if kv.j != "" {
+			d.j = J(jHdr(kAgent, kv.j))
+		}
+		add(d)
+	}
+	for _, kv := range []struct {
+		n string
+		c any
+		j string
+	}{{"text", "dGV4dA==", `"not base64 !"`}, {"int", int64(7), "7"}, {"array", []any{[]byte{1}}, `["AQ=="]`}, {"null", nil, "null"}, {"empty", []byte{}, `""`}} {
+		kv := kv
+		add(deviation{name: "unsigned-timestamp-" + kv.n, c: C(uSet(kTS, kv.c)), j: J(jHdr(kTS, kv.j))})
+	}
+	for _, kv := range []struct {
+		n string
+		c any
+		j string
+	}{{"int", int64(7), "7"}, {"map", map[any]any{"a": 1}, `{"a":1}`}, {"array-of-int", []any{int64(1), int64(2)}, `[1,2]`}, {"empty-array", []any{}, `[]`}, {"null", nil, "null"}, {"array-with-null", []any{nil}, `[null]`}, {"text", "x5", `"x5"`}} {
+		kv := kv
+		add(deviation{name: "unsigned-x5chain-" + kv.n, c: C(uSet(int64(33), kv.c)), j: J(func(s *jwsSpec) { t := kv.j; s.ChainRaw = &t })})
+	}
+	// a content type / algorithm / scheme that is present only among the unsigned members
+	add(deviation{name: "cty-only-unsigned", c: C(cDrop(int64(3)), uSet(int64(3), "text/evil")), j: J(jDrop("cty"), jHdr("cty", `"text/evil"`))})
+	add(deviation{name: "cty-also-unsigned", benign: true, c: C(uSet(int64(3), "text/evil")), j: J(jHdr("cty", `"text/evil"`))})
+	add(deviation{name: "alg-only-unsigned", c: C(cDrop(int64(1)), uSet(int64(1), int64(-7))), j: J(jDrop("alg"), jHdr("alg", `"ES256"`))})
+	add(deviation{name: "scheme-only-unsigned", c: C(cDrop(kScheme), uSet(kScheme, "notary.x509")), j: J(jDrop(kScheme), jHdr(kScheme, `"notary.x509"`))})
+	add(deviation{name: "expiry-also-unsigned", benign: true, c: C(uSet(kExp, int64(1))), j: J(jHdr(kExp, `"2000-01-01T00:00:00Z"`))})
+	add(deviation{name: "crit-also-unsigned", benign: true, j: J(jHdr("crit", `["nope"]`))})
+	add(deviation{name: "crit-also-unsigned-cose", c: C(uSet(int64(2), []any{"nope"}))}) // go-cose refuses crit outside the protected bucket
 	_ = cbor.RawMessage{}
 	return ds
 }
@@ -506,6 +558,12 @@ func emitEnvelopeWrapped(w *CaseWriter, mt string, b []byte, labels []string, wr
 }
 
 func emitEnvelopeFull(w *CaseWriter, mt string, b []byte, labels []string, expect int, wrap string) {
+	emitEnvelopeOut(w, mt, b, labels, expect, wrap, nil)
+}
+
+// emitEnvelopeOut: as emitEnvelopeFull, but the implementation outputs may come from an object with a history
+// (run != nil) instead of from an object freshly parsed from b
+func emitEnvelopeOut(w *CaseWriter, mt string, b []byte, labels []string, expect int, wrap string, run func() implEnvOut) {
 	var v *envView
 	if mt == jws.MediaTypeEnvelope {
 		v = viewJWS(b)
@@ -517,7 +575,12 @@ func emitEnvelopeFull(w *CaseWriter, mt string, b []byte, labels []string, expec
 		sf, ss = oracleTerms(v.Chain)
 	}
 	noteCurrentCase(map[string]any{"labels": labels, "media_type": mt})
-	out := runEnvelope(mt, b)
+	var out implEnvOut
+	if run != nil {
+		out = run()
+	} else {
+		out = runEnvelope(mt, b)
+	}
 	term := fmt.Sprintf("(mk @ID@ %s %s %s %s %s %s %s %s %d)", v.term(), sf, ss, cB(v.Decoded), cB(v.LibVerify), out.Verify, out.Content, cB(out.Panicked), expect)
 	cls := "reject"
 	if out.Content != "None" {
